@@ -254,6 +254,18 @@ def coalesce_block_copies(func):
                         captured.update(n.names)
                 before = block[:idx]
                 inb = sum(occurrences(s2, b) for s2 in before)
+                # ``b = a`` ... ``a = b``: b is a working copy of a that is written back; a may be
+                # mentioned up to that first copy, not between the two
+                first_b = next((k for k, s2 in enumerate(before) if occurrences(s2, b)), None)
+                if first_b is not None and isinstance(before[first_b], ast.Assign) and len(before[first_b].targets) == 1 \
+                        and isinstance(before[first_b].targets[0], ast.Name) and before[first_b].targets[0].id == b \
+                        and isinstance(before[first_b].value, ast.Name) and before[first_b].value.id == a \
+                        and a not in params and '__' in b.strip('_'):
+                    before = before[first_b + 1:]
+                    inb = sum(occurrences(s2, b) for s2 in before) + 1
+                    copy_in = first_b
+                else:
+                    copy_in = None
                 if a != b and not ({a, b} & (params | captured)) and a not in guards \
                         and inb >= 1 and inb == occurrences(func, b) - 1 \
                         and not any(occurrences(s2, a) for s2 in before) \
@@ -266,6 +278,9 @@ def coalesce_block_copies(func):
                             elif isinstance(n, ast.ExceptHandler) and n.name == b:
                                 n.name = a
                     del block[idx]
+                    if copy_in is not None:
+                        del block[copy_in]       # ``b = a`` has become ``a = a``
+                        idx -= 1
                     continue
             for kind, b2 in blocks_of(st):
                 g2 = guards
@@ -339,12 +354,21 @@ def unroll_literal_table_loops(func):
                 rows.append(list(e.elts))
         else:
             return False
+        rebound = set()
         for s2 in st.body:
             for n in ast.walk(s2):
-                if isinstance(n, (ast.Break, ast.Continue, ast.Return, ast.Yield, ast.YieldFrom) + _FUNC):
-                    return False
+                if isinstance(n, (ast.Break, ast.Continue, ast.Return, ast.Yield, ast.YieldFrom, ast.GeneratorExp) + _FUNC):
+                    return False      # (closures and generator expressions read the loop variable late)
                 if isinstance(n, ast.Name) and n.id in tvars and not isinstance(n.ctx, ast.Load):
-                    return False
+                    rebound.add(n.id)
+        if rebound:
+            # a loop variable the body rebinds: each row gets its own variable, initialised from
+            # the row's element (which must be a plain name the body leaves alone, or a constant)
+            stored_in_body = {n.id for s2 in st.body for n in ast.walk(s2) if isinstance(n, ast.Name) and not isinstance(n.ctx, ast.Load)}
+            for row in rows:
+                for e in row:
+                    if not (isinstance(e, ast.Constant) or (isinstance(e, ast.Name) and e.id not in stored_in_body)):
+                        return False
         # the loop variables are not read after the loop
         uses_in = {v: sum(1 for s2 in st.body for n in ast.walk(s2) if isinstance(n, ast.Name) and n.id == v) for v in tvars}
         for v in tvars:
@@ -353,16 +377,23 @@ def unroll_literal_table_loops(func):
                 return False
         for row in rows:
             for v, e in zip(tvars, row):
-                if not _table_elem_ok(e, uses_in[v] > 1):
+                if v not in rebound and not _table_elem_ok(e, uses_in[v] > 1):
                     return False
         out = []
-        for row in rows:
-            env = dict(zip(tvars, row))
+        for k, row in enumerate(rows):
+            env = {v: e for v, e in zip(tvars, row) if v not in rebound}
+            fresh = {v: '%s__it%d' % (v, k) for v in tvars if v in rebound}
+            for v, e in zip(tvars, row):
+                if v in rebound:
+                    out.append(ast.fix_missing_locations(ast.copy_location(
+                        ast.Assign(targets=[ast.Name(id=fresh[v], ctx=ast.Store())], value=copy.deepcopy(e), lineno=st.lineno), st)))
 
             class Put(ast.NodeTransformer):
                 def visit_Name(self, node):
                     if node.id in env and isinstance(node.ctx, ast.Load):
                         return ast.copy_location(copy.deepcopy(env[node.id]), node)
+                    if node.id in fresh:
+                        node.id = fresh[node.id]
                     return node
             for s2 in st.body:
                 out.append(_KwSplat().visit(Put().visit(copy.deepcopy(s2))))
@@ -399,6 +430,320 @@ class _KwSplat(ast.NodeTransformer):
                 kws.append(k)
         node.keywords = kws
         return node
+
+
+def coalesce_copy_in(func):
+    """``b = a`` where a is dead from there on (no later occurrence in the block, in the statements
+    following any enclosing block, nor -- inside a loop -- anywhere but as the target of the
+    innermost enclosing ``for``) and every occurrence of the local b follows the copy in the same
+    block: b is just the new name of a; rename b to a and drop the copy (what inlining a helper
+    that rebinds its parameter leaves behind)."""
+    params = set()
+    a_ = func.args
+    for x in a_.posonlyargs + a_.args + a_.kwonlyargs + [a_.vararg, a_.kwarg]:
+        if x is not None:
+            params.add(x.arg)
+    captured = set()
+    for n in ast.walk(func):
+        if n is not func and isinstance(n, _FUNC):
+            captured.update(x.id for x in ast.walk(n) if isinstance(x, ast.Name))
+        elif isinstance(n, (ast.Global, ast.Nonlocal)):
+            captured.update(n.names)
+
+    def occ(nodes, name):
+        k = 0
+        for s2 in nodes:
+            for n in ast.walk(s2):
+                if isinstance(n, ast.Name) and n.id == name:
+                    k += 1
+                elif isinstance(n, ast.ExceptHandler) and n.name == name:
+                    k += 1
+        return k
+
+    def blocks_of(st):
+        for f in ('body', 'orelse', 'finalbody'):
+            v = getattr(st, f, None)
+            if isinstance(v, list) and v and isinstance(v[0], ast.stmt):
+                yield f, v
+        for h in getattr(st, 'handlers', ()):
+            yield 'handler', h.body
+
+    def dead_after_loop(after, a):
+        """in the statements that follow the loop, a is written before it is read: the first
+        statement mentioning it (which must be one of ``after`` itself, i.e. unconditional)
+        rebinds it without reading it"""
+        for s2 in after:
+            if occ([s2], a) == 0:
+                continue
+            if isinstance(s2, ast.For) and any(isinstance(n, ast.Name) and n.id == a for n in ast.walk(s2.target)) \
+                    and occ([s2.iter], a) == 0:
+                return True
+            if isinstance(s2, ast.Assign) and len(s2.targets) == 1 and isinstance(s2.targets[0], ast.Name) \
+                    and s2.targets[0].id == a and occ([s2.value], a) == 0:
+                return True
+            return False
+        return True
+
+    def visit(block, later, loop, after=(), outermost=None):
+        """later: statements that run after this block (outer continuations); loop: innermost For/While"""
+        idx = 0
+        while idx < len(block):
+            st = block[idx]
+            if isinstance(st, _FUNC):
+                idx += 1
+                continue
+            if isinstance(st, ast.Assign) and len(st.targets) == 1 and isinstance(st.targets[0], ast.Name) \
+                    and isinstance(st.value, ast.Name):
+                b, a = st.targets[0].id, st.value.id
+                rest = block[idx + 1:]
+                # only working copies the inliner introduced (``<param>__<helper>..``): a copy written
+                # by the author is left alone, rules may name it
+                ok = a != b and b not in params and b not in captured and a not in captured \
+                    and '__' in b.strip('_') and not b.startswith('__')
+                ok = ok and occ(rest, b) >= 1 and occ([func], b) == occ(rest, b) + 1
+                ok = ok and occ(rest, a) == 0 and occ(later, a) == 0
+                if ok and loop is not None:
+                    # a must be fresh in every iteration: the loop's own target, used nowhere else in the loop
+                    tgt = isinstance(loop, ast.For) and any(isinstance(n, ast.Name) and n.id == a for n in ast.walk(loop.target)) \
+                        and occ([loop.iter], a) == 0
+                    # inside the loop: the target and this copy only; after it: rebound before read
+                    ok = tgt and occ([outermost or loop], a) == 2 and dead_after_loop(list(after), a)
+                if ok:
+                    for s2 in rest:
+                        for n in ast.walk(s2):
+                            if isinstance(n, ast.Name) and n.id == b:
+                                n.id = a
+                            elif isinstance(n, ast.ExceptHandler) and n.name == b:
+                                n.name = a
+                    del block[idx]
+                    continue
+            for kind, b2 in blocks_of(st):
+                if isinstance(st, (ast.For, ast.While)) and kind == 'body':
+                    visit(b2, [], st, (block[idx + 1:] + list(later) + list(after)) if loop is None else after, outermost or st)
+                else:
+                    visit(b2, block[idx + 1:] + later, loop, after, outermost)
+            idx += 1
+
+    visit(func.body, [], None)
+
+
+def break_to_return(func):
+    """a loop without ``else`` immediately followed by ``return E`` (E a name or a constant): a
+    ``break`` of that loop continues at the return, so it is ``return E`` itself (single-exit
+    and early-return search loops are the same loop)"""
+    def blocks_of(st):
+        for f in ('body', 'orelse', 'finalbody'):
+            v = getattr(st, f, None)
+            if isinstance(v, list) and v and isinstance(v[0], ast.stmt):
+                yield v
+        for h in getattr(st, 'handlers', ()):
+            yield h.body
+
+    def replace_breaks(body, ret):
+        for k, s2 in enumerate(body):
+            if isinstance(s2, ast.Break):
+                body[k] = ast.copy_location(ast.Return(value=copy.deepcopy(ret.value)), s2)
+            elif isinstance(s2, (ast.For, ast.While) + _FUNC):
+                if isinstance(s2, (ast.For, ast.While)):
+                    replace_breaks(s2.orelse, ret)      # a break in the else clause belongs to the outer loop
+                continue
+            else:
+                for b in blocks_of(s2):
+                    replace_breaks(b, ret)
+
+    def in_finally(body):
+        return any(isinstance(n, ast.Try) and n.finalbody and any(isinstance(x, ast.Break) for y in n.body + n.orelse for x in ast.walk(y))
+                   for s2 in body for n in ast.walk(s2))
+
+    def visit(block):
+        for i, st in enumerate(block):
+            if isinstance(st, _FUNC):
+                continue
+            if isinstance(st, (ast.For, ast.While)) and not st.orelse and i + 1 < len(block) and isinstance(block[i + 1], ast.Return) \
+                    and (block[i + 1].value is None or isinstance(block[i + 1].value, (ast.Name, ast.Constant))) \
+                    and not in_finally(st.body):
+                replace_breaks(st.body, block[i + 1])
+            for b in blocks_of(st):
+                visit(b)
+    visit(func.body)
+
+
+def append_then_unpack(func):
+    """``xs = []`` ... ``xs.append(e1)`` ... ``xs.append(en)`` ... ``p1, .., pn = xs`` -- all
+    statements of one block, xs mentioned nowhere else: the list is only a parcel for n values;
+    ``t_k = e_k`` at the place of each append and ``p_k = t_k`` at the unpacking"""
+    def blocks_of(st):
+        for f in ('body', 'orelse', 'finalbody'):
+            v = getattr(st, f, None)
+            if isinstance(v, list) and v and isinstance(v[0], ast.stmt):
+                yield v
+        for h in getattr(st, 'handlers', ()):
+            yield h.body
+
+    def visit(block):
+        for i, st in enumerate(block):
+            if isinstance(st, _FUNC):
+                continue
+            if isinstance(st, ast.Assign) and len(st.targets) == 1 and isinstance(st.targets[0], ast.Name) \
+                    and isinstance(st.value, ast.List) and not st.value.elts:
+                x = st.targets[0].id
+                total = sum(1 for n in ast.walk(func) if isinstance(n, ast.Name) and n.id == x)
+                apps, unpack = [], None
+                for j in range(i + 1, len(block)):
+                    s2 = block[j]
+                    if isinstance(s2, ast.Expr) and isinstance(s2.value, ast.Call) and isinstance(s2.value.func, ast.Attribute) \
+                            and s2.value.func.attr == 'append' and isinstance(s2.value.func.value, ast.Name) and s2.value.func.value.id == x \
+                            and len(s2.value.args) == 1 and not s2.value.keywords \
+                            and not any(isinstance(n, ast.Name) and n.id == x for n in ast.walk(s2.value.args[0])):
+                        apps.append(j)
+                    elif isinstance(s2, ast.Assign) and len(s2.targets) == 1 and isinstance(s2.targets[0], ast.Tuple) \
+                            and isinstance(s2.value, ast.Name) and s2.value.id == x \
+                            and all(isinstance(t, ast.Name) for t in s2.targets[0].elts):
+                        unpack = j
+                        break
+                    elif any(isinstance(n, ast.Name) and n.id == x for n in ast.walk(s2)):
+                        break
+                if unpack is not None and apps and len(apps) == len(block[unpack].targets[0].elts) and total == len(apps) + 2:
+                    tmps = ['%s__v%d' % (x, k) for k in range(len(apps))]
+                    for k, j in enumerate(apps):
+                        block[j] = ast.fix_missing_locations(ast.copy_location(
+                            ast.Assign(targets=[ast.Name(id=tmps[k], ctx=ast.Store())], value=block[j].value.args[0], lineno=block[j].lineno), block[j]))
+                    tg = block[unpack].targets[0].elts
+                    new = [ast.fix_missing_locations(ast.copy_location(
+                        ast.Assign(targets=[ast.Name(id=t.id, ctx=ast.Store())], value=ast.Name(id=tmps[k], ctx=ast.Load()), lineno=block[unpack].lineno),
+                        block[unpack])) for k, t in enumerate(tg)]
+                    block[unpack:unpack + 1] = new
+                    del block[i]
+                    return visit(block)
+            for b in blocks_of(st):
+                visit(b)
+    visit(func.body)
+
+
+def specialise_bound_tail(func):
+    """an if / elif / else chain whose branches only *bind selector variables* (or leave),
+    followed by statements that use them -- table-driven dispatch::
+
+        if op == '[': f, excs = operator.delitem, (KeyError, IndexError)
+        elif op == '.': f, excs = delattr, AttributeError
+        else: return
+        try: f(dest, arg)
+        except excs as e: ...
+
+    is the same as the chain with the tail written out in every branch, the bound names
+    replaced by what the branch binds them to.  Only when there is an explicit else, every
+    binding is a plain local, simple values (names, dotted names, constants, tuples of them)
+    are substituted and other values (calls) stay as statements, the tail (at most 6
+    statements, no loop) does not rebind the selectors and they are used nowhere else."""
+    def simple(e):
+        if isinstance(e, (ast.Name, ast.Constant)):
+            return True
+        if isinstance(e, ast.Attribute):
+            return simple(e.value)
+        if isinstance(e, ast.Tuple):
+            return all(simple(x) for x in e.elts)
+        return False
+
+    def terminates(body):
+        return bool(body) and isinstance(body[-1], (ast.Return, ast.Raise, ast.Continue, ast.Break))
+
+    def blocks_of(st):
+        for f in ('body', 'orelse', 'finalbody'):
+            v = getattr(st, f, None)
+            if isinstance(v, list) and v and isinstance(v[0], ast.stmt):
+                yield v
+        for h in getattr(st, 'handlers', ()):
+            yield h.body
+
+    def try_at(block, i):
+        st = block[i]
+        tail = block[i + 1:]
+        if not isinstance(st, ast.If) or not tail or len(tail) > 6:
+            return False
+        if any(isinstance(n, (ast.For, ast.While)) for s2 in tail for n in ast.walk(s2)):
+            return False
+        branches = []
+        cur = st
+        while True:
+            branches.append(cur.body)
+            if len(cur.orelse) == 1 and isinstance(cur.orelse[0], ast.If):
+                cur = cur.orelse[0]
+                continue
+            if not cur.orelse:
+                return False
+            branches.append(cur.orelse)
+            break
+        binding = [b for b in branches if not terminates(b)]
+        if len(binding) < 2:
+            return False
+        # a table row binds several things (what to apply *and* with which parameters); one
+        # conditionally chosen value is just a conditional value
+        if any(len(b) < 2 for b in binding):
+            return False
+        bound = set()
+        for b in binding:
+            for s2 in b:
+                if not (isinstance(s2, ast.Assign) and len(s2.targets) == 1 and isinstance(s2.targets[0], ast.Name)):
+                    return False
+                bound.add(s2.targets[0].id)
+        for b in branches:
+            if terminates(b) and any(isinstance(n, ast.Name) and n.id in bound for s2 in b for n in ast.walk(s2)):
+                return False
+        # every binding branch binds every selector; the selectors live in the tail only
+        for b in binding:
+            if {s2.targets[0].id for s2 in b} != bound:
+                return False
+        def occ(nodes):
+            return sum(1 for s2 in nodes for n in ast.walk(s2) if isinstance(n, ast.Name) and n.id in bound)
+        in_chain = occ([st])
+        in_tail = occ(tail)
+        if in_tail == 0 or occ([func]) != in_chain + in_tail:
+            return False
+        if any(isinstance(n, ast.Name) and n.id in bound and not isinstance(n.ctx, ast.Load) for s2 in tail for n in ast.walk(s2)):
+            return False
+        if any(isinstance(n, _FUNC + (ast.GeneratorExp,)) for s2 in tail for n in ast.walk(s2)):
+            return False
+        if any(isinstance(n, ast.Name) and n.id in bound for b in binding for s2 in b for n in ast.walk(s2.value)):
+            return False
+        # the signature of table-driven dispatch: a selector is *applied* -- called, or named as
+        # the class of an except clause (a variable that merely carries a value is left alone)
+        applied = any((isinstance(n, ast.Call) and isinstance(n.func, ast.Name) and n.func.id in bound) or
+                      (isinstance(n, ast.ExceptHandler) and isinstance(n.type, ast.Name) and n.type.id in bound)
+                      for s2 in tail for n in ast.walk(s2))
+        if not applied:
+            return False
+        for b in binding:
+            env = {}
+            keep = []
+            for s2 in b:
+                if simple(s2.value):
+                    env[s2.targets[0].id] = s2.value
+                else:
+                    keep.append(s2)
+
+            class Put(ast.NodeTransformer):
+                def visit_Name(self, node):
+                    if node.id in env and isinstance(node.ctx, ast.Load):
+                        return ast.copy_location(copy.deepcopy(env[node.id]), node)
+                    return node
+            new_tail = [ast.fix_missing_locations(Put().visit(copy.deepcopy(t))) for t in tail]
+            b[:] = keep + new_tail
+        del block[i + 1:]
+        return True
+
+    def visit(block):
+        i = 0
+        while i < len(block):
+            st = block[i]
+            if isinstance(st, _FUNC):
+                i += 1
+                continue
+            if try_at(block, i):
+                pass
+            for b in blocks_of(block[i]):
+                visit(b)
+            i += 1
+    visit(func.body)
 
 
 def inline_adjacent_temps(func, log=None):
@@ -900,10 +1245,21 @@ def append_loop_to_comprehension(func, log=None):
                     and isinstance(nxt, ast.For) and not nxt.orelse and len(nxt.body) == 1:
                 x = st.targets[0].id
                 b = nxt.body[0]
-                if isinstance(b, ast.Expr) and isinstance(b.value, ast.Call) and isinstance(b.value.func, ast.Attribute) \
-                        and b.value.func.attr == 'append' and isinstance(b.value.func.value, ast.Name) \
-                        and b.value.func.value.id == x and len(b.value.args) == 1 and not b.value.keywords:
-                    e = b.value.args[0]
+
+                def appended(b_):
+                    """the expression a statement appends to x: ``x.append(e)``, or an if / elif / else
+                    chain every branch of which is one such statement (a conditional expression)"""
+                    if isinstance(b_, ast.Expr) and isinstance(b_.value, ast.Call) and isinstance(b_.value.func, ast.Attribute) \
+                            and b_.value.func.attr == 'append' and isinstance(b_.value.func.value, ast.Name) \
+                            and b_.value.func.value.id == x and len(b_.value.args) == 1 and not b_.value.keywords:
+                        return b_.value.args[0]
+                    if isinstance(b_, ast.If) and len(b_.body) == 1 and len(b_.orelse) == 1:
+                        e1, e2 = appended(b_.body[0]), appended(b_.orelse[0])
+                        if e1 is not None and e2 is not None and not any(isinstance(n, ast.Name) and n.id == x for n in ast.walk(b_.test)):
+                            return ast.copy_location(ast.IfExp(test=b_.test, body=e1, orelse=e2), b_)
+                    return None
+                e = appended(b)
+                if e is not None:
                     mentions = any(isinstance(n, ast.Name) and n.id == x for n in list(ast.walk(e)) + list(ast.walk(nxt.iter)))
                     if not mentions:
                         comp = ast.ListComp(elt=e, generators=[ast.comprehension(target=nxt.target, iter=nxt.iter, ifs=[], is_async=0)])
@@ -993,6 +1349,16 @@ class _OperatorCalls(ast.NodeTransformer):
                 return ast.copy_location(ast.BinOp(left=node.args[0], op=_OPERATOR_BIN[f.attr](), right=node.args[1]), node)
         return node
 
+    def visit_Expr(self, node):
+        # ``operator.delitem(a, b)`` as a statement is ``del a[b]``
+        v = node.value
+        if isinstance(v, ast.Call) and isinstance(v.func, ast.Attribute) and isinstance(v.func.value, ast.Name) \
+                and v.func.value.id == 'operator' and v.func.attr == 'delitem' and len(v.args) == 2 and not v.keywords:
+            a, b = self.visit(v.args[0]), self.visit(v.args[1])
+            return ast.copy_location(ast.Delete(targets=[ast.Subscript(value=a, slice=b, ctx=ast.Del())]), node)
+        self.generic_visit(node)
+        return node
+
 
 def _operator_is_the_module(tree):
     imported = any(isinstance(n, ast.Import) and any(a.name == 'operator' and a.asname is None for a in n.names) for n in tree.body)
@@ -1009,17 +1375,23 @@ def apply_all(tree):
         tree = _OperatorCalls().visit(tree)
     for node in ast.walk(tree):
         if isinstance(node, (ast.FunctionDef, ast.AsyncFunctionDef)):
+            break_to_return(node)
             no_else_after_terminating_if(node)
             split_chained_assign(node)
             split_tuple_assign(node)
+            specialise_bound_tail(node)
             unroll_literal_table_loops(node)
+            append_then_unpack(node)
             append_loop_to_comprehension(node)
             propagate_type_temps(node)
             if_assign_to_ifexp(node)
             for_range_to_while(node)
             coalesce_copies(node)
             coalesce_block_copies(node)
+            coalesce_copy_in(node)
             inline_adjacent_temps(node)
+    if isinstance(tree, ast.Module) and _operator_is_the_module(tree):
+        tree = ast.fix_missing_locations(_OperatorCalls().visit(tree))
     return tree
 
 
